@@ -187,6 +187,19 @@ class Rewriter(ast.NodeTransformer):
                          args=[node.func.value] + node.args, keywords=node.keywords), node)
         return node
 
+    def visit_FunctionDef(self, node):
+        self.generic_visit(node)
+        # numba / cuda JIT decorators are dropped: the kernel's Python source is executed as written
+        keep = []
+        for d in node.decorator_list:
+            txt = ast.unparse(d)
+            if "njit" in txt or "numba." in txt or "cuda.jit" in txt or txt.startswith("jit"):
+                self.n["jit_decorators_dropped"] = self.n.get("jit_decorators_dropped", 0) + 1
+            else:
+                keep.append(d)
+        node.decorator_list = keep
+        return node
+
     def visit_ImportFrom(self, node):
         if node.module == "cryocat":
             node.module = PKG
@@ -264,6 +277,8 @@ class Loader(importlib.abc.MetaPathFinder, importlib.abc.Loader):
                 g[name] = self.math; subs.append(name)
             elif val is math.ceil:
                 g[name] = sx_ceil; subs.append(name)
+            elif name == "prange":
+                g[name] = range; subs.append(name)
         from . import stubs
         subs += stubs.substitute(short, g)
         self.substituted[short] = sorted(subs)
